@@ -24,7 +24,7 @@ vars == <<l, ar, s1, s2, gen, nonu, viol, drift, stats>>
 Init == l = 1 /\ ar = TRUE /\ s1 = <<>> /\ s2 = <<>> /\ gen = FALSE /\ nonu = FALSE /\ viol = <<>> /\ drift = <<>>
         /\ stats = [pairs |-> 0, answers |-> 0, equal |-> 0, notequal |-> 0, unknown |-> 0, nontrivial |-> 0,
                     graph_pairs |-> 0, generic_phase_pairs |-> 0, graph_answers |-> 0, default_wrapper |-> 0, dim_calls |-> 0,
-                    nonunitary_pairs |-> 0, nonunitary_equal_answers |-> 0]
+                    nonunitary_pairs |-> 0, nonunitary_equal_answers |-> 0, nonunitary_rewriting_panics |-> 0]
 Arity == ar
 \* the pair differs exactly by a global phase that is not 1
 DefGen(ret, phase) == ret = "unknown" \/ (IF phase THEN ret = "equal" ELSE ret = "notequal")
@@ -47,7 +47,9 @@ Step(e) ==
          /\ ar' = SameArity(a, b) /\ s1' = Den(a) /\ s2' = Den(b) /\ gen' = FALSE /\ nonu' = FALSE
          /\ stats' = [stats EXCEPT !.pairs = @ + 1, !.graph_pairs = @ + 1] /\ UNCHANGED <<viol, drift>>
     [] e.k = "eq" ->
-         /\ viol' = IF e.ret = "panic" THEN Append(viol, <<l, "NoPanic", e.fn>>)
+         \* the rewriting-based checker composes g1^dagger with g2 by plug(); on maps that are not unitary the simplified operand can be a
+         \* cap (a wire joining two of its own inputs), where plug() panics (the recorded C11 finding): outside what C12 states, counted only
+         /\ viol' = IF e.ret = "panic" THEN (IF nonu THEN viol ELSE Append(viol, <<l, "NoPanic", e.fn>>))
                     ELSE IF gen THEN (IF DefGen(e.ret, e.phase) THEN viol ELSE Append(viol, <<l, "DefGen", e.fn, e.ret>>))
                     \* maps that are not unitary: the rewriting-based test (S1^dagger ; S2 = identity) presupposes unitaries, so an "equal"
                     \* answer is only counted; "not equal" must still be right: the arities differ or the tensors do
@@ -61,7 +63,8 @@ Step(e) ==
                                    !.nontrivial = @ + (IF e.ret # "unknown" THEN 1 ELSE 0),
                                    !.default_wrapper = @ + B(e.fn \in {"graph_default", "circuit_default"}),
                                    !.graph_answers = @ + B(e.fn \in {"graph", "graph_default", "graph_simplified"}),
-                                   !.nonunitary_equal_answers = @ + B(nonu /\ e.ret = "equal")]
+                                   !.nonunitary_equal_answers = @ + B(nonu /\ e.ret = "equal"),
+                                   !.nonunitary_rewriting_panics = @ + B(nonu /\ e.ret = "panic")]
          /\ UNCHANGED <<ar, s1, s2, gen, nonu>>
     [] e.k = "eqt" ->
          /\ viol' = IF e.res = "panic" THEN Append(viol, <<l, "NoPanic", e.fn>>)
